@@ -449,7 +449,9 @@ package keeper
 // Both branches are under contract. The clauses about the stored shard, the order status and the deposit speak about the
 // completion of a waiting shard (no listed shard of the provider is migrating); for the completion of a migrated shard the
 // hand-over clauses say that the new shard takes over the serving order, the queued renewals and the end height of the old
-// provider's shard. Not stated for the migration branch: the rewrite of the shard lists of the renewal orders (loops L2-L4).
+// provider's shard. The rewrite of the shard lists of the renewal orders in the migration branch (loops L2-L4: pointers to order
+// records collected in a list and written through) is decided by a bounded stand-in, not by contract: clause
+// [C13.complete.migrate.listing], /verif/replay/tests/B_complete_migration_listing_test.go (9 histories on the real application).
 // Entry hypotheses used only by the migration branch: [scope.migration.source] (the shard a migration comes from is a
 // completed one) and [C13.inv.shardorder] (every shard names an existing order).
 //@ func (msgServer) Complete(goCtx, msg) (resp, err)
@@ -466,7 +468,7 @@ package keeper
 //@   requires [C11.sched.unique] forall c string, h int :: has(Metadata, c) && 0 <= h && h <= MaxUint64 && has(ExpiredData, h) && contains(ExpiredData[h].Data, c) ==> h == u64(Metadata[c].CreatedAt + Metadata[c].Duration)
 //@   requires [C11.sched.once] forall c string, h int, i int, j int :: 0 <= h && h <= MaxUint64 && has(ExpiredData, h) && 0 <= i && i < j && j < len(ExpiredData[h].Data) ==> !(ExpiredData[h].Data[i] == c && ExpiredData[h].Data[j] == c)
 //@   modifies *
-//@   loop L2 invariant 0 <= i
+//@   loop L2 invariant -1 <= rangeindex
 //@   loop L3 noframe
 //@   loop L3 invariant -1 <= rangeindex
 //@   loop L3 invariant orderInProgress.UnitPrice == entry(orderInProgress.UnitPrice)
